@@ -486,6 +486,32 @@ Proof.
 Qed.
 
 (* ------------------------------------------------------------------------------------ *)
+(* sessions: several requests on one connection                                           *)
+
+Lemma session_fold : forall D t (qs : list (request D)) acc,
+  fold_left (session_step t) qs acc = acc ++ map (server_reply t) qs.
+Proof.
+  induction qs as [|q qs IH]; intros acc; cbn [fold_left map]; [rewrite app_nil_r; reflexivity|].
+  rewrite IH. unfold session_step. rewrite <- app_assoc. reflexivity.
+Qed.
+
+(* the i-th reply of a session is the reply to the i-th request alone, whatever came before *)
+Theorem session_replies_map : forall D t (qs : list (request D)),
+  session_replies t qs = map (server_reply t) qs.
+Proof. intros. unfold session_replies. rewrite session_fold. reflexivity. Qed.
+
+Theorem session_meets : forall D t (qs : list (request D)),
+  server_classes_ok t = true -> Forall (fun q => server_guard q = true) qs ->
+  Forall2 (fun r q => exists x, spec_server q = Some x /\ meets r x) (session_replies t qs) qs.
+Proof.
+  intros D t qs Hs HG. rewrite session_replies_map.
+  induction HG as [|q qs Hq HG IH]; cbn [map]; constructor; [|exact IH].
+  unfold server_guard in Hq. destruct (spec_server q) as [x|] eqn:E; [|discriminate].
+  exists x. split; [reflexivity|]. apply server_side_generic; try assumption.
+  unfold server_guard. rewrite E. exact Hq.
+Qed.
+
+(* ------------------------------------------------------------------------------------ *)
 (* the regenerated table passes the guards (re-checked on every run)                     *)
 
 Theorem table_ok_current : table_ok current_table = true.
